@@ -97,6 +97,7 @@ var opArity = map[string]int{
 	"dfin":    1,  // d
 	"stats":   1,  // detailed
 	"destroy": 0,
+	"fault":   4, // callKind(-1 = any fallible) k result(0 = natural code for the call kind) sticky
 }
 
 func parseOp(fields []string) (Op, error) {
